@@ -149,20 +149,33 @@ impl HistoryCase {
                 }
             }
             // C05: re-parse and re-render in this process; every HashMap gets fresh keys
-            for _ in 1..self.repeats {
-                let mut t2: Option<xml_schema_generator::Element<String>> = None;
-                for d in &self.docs {
-                    if let Step::Ok(e) = implrun::step(&d.bytes, self.cfg, t2.as_ref()) {
-                        t2 = Some(e);
+            // every fourth repetition runs in a thread of its own: std's RandomState draws fresh random keys per thread
+            for rep in 1..self.repeats {
+                let run = |docs: &[DocInput], cfg: crate::record::ReaderCfg, opts: &[crate::proto::OptRec]| -> Vec<(usize, String)> {
+                    let mut out = Vec::new();
+                    let mut t2: Option<xml_schema_generator::Element<String>> = None;
+                    for d in docs {
+                        if let Step::Ok(e) = implrun::step(&d.bytes, cfg, t2.as_ref()) {
+                            t2 = Some(e);
+                        }
                     }
-                }
-                if let Some(t2) = &t2 {
-                    for (i, o) in self.opts.iter().enumerate() {
-                        if let Ok(txt) = implrun::render(t2, o) {
-                            if !renders.iter().any(|(j, t)| *j == i && *t == txt) {
-                                renders.push((i, txt));
+                    if let Some(t2) = &t2 {
+                        for (i, o) in opts.iter().enumerate() {
+                            if let Ok(txt) = implrun::render(t2, o) {
+                                out.push((i, txt));
                             }
                         }
+                    }
+                    out
+                };
+                let got = if rep % 4 == 0 {
+                    std::thread::scope(|sc| sc.spawn(|| run(&self.docs, self.cfg, &self.opts)).join().unwrap_or_default())
+                } else {
+                    run(&self.docs, self.cfg, &self.opts)
+                };
+                for (i, txt) in got {
+                    if !renders.iter().any(|(j, t)| *j == i && *t == txt) {
+                        renders.push((i, txt));
                     }
                 }
             }
